@@ -671,12 +671,13 @@ class AsyncFIXConnection:
                     if is_sess_msg or not await self.should_replay(replay_msg):
                         gap_fill_end = msg_seq_num + 1
                     else:
-                        if gap_fill_begin < gap_fill_end:
-                            # we need to send a gap fill message
+                        if gap_fill_begin < msg_seq_num:
+                            # everything since the last replayed message (session
+                            #  level, declined or missing in journal) is one gap
                             gap_fill_msg = FIXMessage(FMsg.SEQUENCERESET)
                             gap_fill_msg[FTag.GapFillFlag] = "Y"
                             gap_fill_msg[FTag.MsgSeqNum] = gap_fill_begin
-                            gap_fill_msg[FTag.NewSeqNo] = str(gap_fill_end)
+                            gap_fill_msg[FTag.NewSeqNo] = str(msg_seq_num)
                             # breakpoint()
                             await self.send_msg(gap_fill_msg)
 
